@@ -23,6 +23,8 @@ pub struct KeyCase<V> {
     desc: &'static str,
     generate: Box<dyn Fn(&mut Rng) -> V>,
     enc: Box<dyn Fn(&V) -> Vec<u8>>,
+    /// canonical text of the native value for the value-level lines (`key enc`, `key vcmp`), see `VText`
+    text: Box<dyn Fn(&V) -> String>,
     /// decode(bytes) == v, using the real from_bytes
     roundtrip: Box<dyn Fn(&V, &[u8]) -> bool>,
     /// from_bytes on arbitrary bytes must not panic for a valid encoding
@@ -44,7 +46,82 @@ fn min_of<K: Key>() -> Option<Vec<u8>> {
     K::min_encoded_key().map(|c| c.into_owned())
 }
 
+/// Canonical text of a native value, parsed by the Lean driver (Driver/KeyVal.lean) into the
+/// model's `Val`: `n:` unit, `b:0|1`, `c:<hex scalar>`, `u:<dec>`, `i:<dec>`, `s:[<hex scalar>,..]`
+/// (a string as its chars, NOT its UTF-8 bytes, so that the model's UTF-8 encoder is what gets
+/// compared with `as_bytes`), `y:<hex>` bytes, `o:-` / `o:(V)`, `a:[V;..]`, `t:(V;..)`.
+pub trait VText {
+    fn vtext(&self) -> String;
+}
+macro_rules! vtext_int {
+    ($tag:literal, $($t:ty),+) => { $(impl VText for $t { fn vtext(&self) -> String { format!("{}:{}", $tag, self) } })+ };
+}
+vtext_int!("u", u8, u16, u32, u64, u128);
+vtext_int!("i", i8, i16, i32, i64, i128);
+impl VText for () {
+    fn vtext(&self) -> String {
+        "n:".into()
+    }
+}
+impl VText for bool {
+    fn vtext(&self) -> String {
+        format!("b:{}", u8::from(*self))
+    }
+}
+impl VText for char {
+    fn vtext(&self) -> String {
+        format!("c:{:x}", *self as u32)
+    }
+}
+impl VText for String {
+    fn vtext(&self) -> String {
+        format!("s:[{}]", self.chars().map(|c| format!("{:x}", c as u32)).collect::<Vec<_>>().join(","))
+    }
+}
+impl VText for Vec<u8> {
+    fn vtext(&self) -> String {
+        format!("y:{}", hex(self))
+    }
+}
+impl VText for uuid::Uuid {
+    fn vtext(&self) -> String {
+        format!("y:{}", hex(self.as_bytes()))
+    }
+}
+impl<T: VText> VText for Option<T> {
+    fn vtext(&self) -> String {
+        match self {
+            None => "o:-".into(),
+            Some(x) => format!("o:({})", x.vtext()),
+        }
+    }
+}
+/// `[T; N]` as a key is redb's array type; `&[u8; N]` (descriptor `fb<N>`) overrides this with `with_text`
+impl<T: VText, const N: usize> VText for [T; N] {
+    fn vtext(&self) -> String {
+        format!("a:[{}]", self.iter().map(|x| x.vtext()).collect::<Vec<_>>().join(";"))
+    }
+}
+macro_rules! vtext_tuple {
+    ($($t:ident $i:tt),+) => {
+        impl<$($t: VText),+> VText for ($($t,)+) {
+            fn vtext(&self) -> String {
+                format!("t:({})", [$(self.$i.vtext()),+].join(";"))
+            }
+        }
+    };
+}
+vtext_tuple!(A 0);
+vtext_tuple!(A 0, B 1);
+vtext_tuple!(A 0, B 1, C 2);
+vtext_tuple!(A 0, B 1, C 2, D 3);
+
 impl<V: Ord + Clone + std::fmt::Debug + 'static> KeyCase<V> {
+    /// replaces the value text derived from `VText` (for native types whose Rust type does not determine the key type)
+    fn with_text(mut self, f: impl Fn(&V) -> String + 'static) -> Self {
+        self.text = Box::new(f);
+        self
+    }
     fn run(&self, rng: &mut Rng, out: &mut Out, rounds: usize) {
         out.begin_case(&format!("type {}", self.desc));
         let d = self.desc;
@@ -56,9 +133,13 @@ impl<V: Ord + Clone + std::fmt::Debug + 'static> KeyCase<V> {
             let mut vs: Vec<V> = (0..3).map(|_| (self.generate)(rng)).collect();
             vs.sort();
             let es: Vec<Vec<u8>> = vs.iter().map(|v| (self.enc)(v)).collect();
-            for (v, e) in vs.iter().zip(&es) {
+            let ts: Vec<String> = vs.iter().map(|v| (self.text)(v)).collect();
+            for ((v, e), t) in vs.iter().zip(&es).zip(&ts) {
                 out.count("encodings");
                 out.line(&format!("key valid {d} {} => 1", hex(e)));
+                // value level: the model's encoder/decoder against as_bytes of the native value
+                out.count("value_encodings");
+                out.line(&format!("key enc {d} {t} => {}", hex(e)));
                 let ok = catch_unwind(AssertUnwindSafe(|| (self.roundtrip)(v, e))).unwrap_or(false);
                 if !ok {
                     out.oracle_fail(format!("{d}: from_bytes(as_bytes(v)) != v for v={v:?} bytes={}", hex(e)));
@@ -70,6 +151,9 @@ impl<V: Ord + Clone + std::fmt::Debug + 'static> KeyCase<V> {
                     out.count("compares");
                     out.line(&format!("key cmp {d} {} {} => {}", hex(&es[i]), hex(&es[j]), ord_str(c)));
                     let native = vs[i].cmp(&vs[j]);
+                    // value level: the model's value order against the native `Ord`
+                    out.count("value_compares");
+                    out.line(&format!("key vcmp {d} {} {} => {}", ts[i], ts[j], ord_str(native)));
                     if c != native {
                         out.oracle_fail(format!("{d}: compare({}, {}) = {c:?} but values order {native:?} ({:?} vs {:?})", hex(&es[i]), hex(&es[j]), vs[i], vs[j]));
                     }
@@ -194,6 +278,7 @@ macro_rules! case {
                 let b = <$k as Value>::as_bytes(v);
                 AsRef::<[u8]>::as_ref(&b).to_vec()
             }),
+            text: Box::new(|v: &$native| VText::vtext(v)),
             roundtrip: Box::new(|v: &$native, e: &[u8]| <$k as Value>::from_bytes(e) == *v),
             decodes: Box::new(|e: &[u8]| {
                 let _ = <$k as Value>::from_bytes(e);
@@ -216,6 +301,7 @@ macro_rules! case {
                 let b = <$k as Value>::as_bytes(&view);
                 AsRef::<[u8]>::as_ref(&b).to_vec()
             }),
+            text: Box::new(|v: &$native| VText::vtext(v)),
             roundtrip: Box::new(|v: &$native, e: &[u8]| {
                 let $d: $dt = <$k as Value>::from_bytes(e);
                 let back: $native = $back;
@@ -268,7 +354,7 @@ pub fn run(args: &Args) {
     case!(owned "str", String, String, gen_string).run(r, o, rounds);
     case!(view "bytes", &[u8], Vec<u8>, gen_bytes, |v: &Vec<u8>| -> &[u8] { v.as_slice() }, |d: &[u8]| d.to_vec()).run(r, o, rounds * 3);
     case!(view "fb4", &[u8; 4], [u8; 4], |r: &mut Rng| { let b = gen_bytes(r); let mut x = [0u8; 4]; for (i, v) in b.iter().take(4).enumerate() { x[i] = *v; } x },
-        |v: &[u8; 4]| -> &[u8; 4] { v }, |d: &[u8; 4]| *d).run(r, o, rounds);
+        |v: &[u8; 4]| -> &[u8; 4] { v }, |d: &[u8; 4]| *d).with_text(|v: &[u8; 4]| format!("y:{}", hex(v))).run(r, o, rounds);
     case!(owned "opt(u32)", Option<u32>, Option<u32>, |r: &mut Rng| gen_opt(r, gen_u32)).run(r, o, rounds);
     case!(view "opt(str)", Option<&str>, Option<String>, |r: &mut Rng| gen_opt(r, gen_string),
         |v: &Option<String>| -> Option<&str> { v.as_deref() }, |d: Option<&str>| d.map(|x| x.to_string())).run(r, o, rounds * 2);
